@@ -38,7 +38,7 @@ def run(ctx):
     ctx.cov.update({
         "traces_validated_against_impl": len(rows), "evaluations": len(rows),
         "distinct_nontrivial": len({(tuple(c["b"]), tuple(c["p"])) for c in rows if 46 in c["p"]}),
-        "rule": "all URL paths of length <= %d over {'/','.','a','\\\\'} x 8 bases through the real ResolveUrlPath, plus seeded "
+        "rule": "all URL paths of length <= %d over {'/','.','a','\\\\'} x 8 bases through the real ResolveUrlPath, plus percent-encoded / backslash-led / mixed spellings and seeded "
                 "longer paths over arbitrary bytes; non-trivial = path contains a '.' byte (dot segments can arise)" % maxlen,
         "exhaustive": True, "model_maxlen": maxlen, "drift": len(drift), "with_dot": dot,
     })
